@@ -50,6 +50,9 @@ func toBV(v Val, w int) *Term {
 	case int64:
 		return mkBV(uint64(v), w)
 	case *Term:
+		if v.sort.K == KInt {
+			return mkInt2Bv(v, w)
+		}
 		if v.sort.K != KBV || v.sort.W != w {
 			panic(fmt.Sprintf("toBV: term of sort %v where width %d expected: %s", v.sort, w, v))
 		}
@@ -231,6 +234,9 @@ func intBinop(fr *frame, instr ssa.Instruction, op token.Token, w int, signed bo
 		}
 		panic(fmt.Sprintf("intBinop: unexpected op %s", op))
 	}
+	if isIntTerm(x) || isIntTerm(y) {
+		return intBinopInt(fr, instr, op, w, signed, x, y)
+	}
 	a, b := toBV(x, w), toBV(y, w)
 	switch op {
 	case token.ADD:
@@ -325,6 +331,17 @@ func shiftOp(fr *frame, instr ssa.Instruction, op token.Token, w int, signed boo
 			return int64(0)
 		}
 		return canon(uint64(xc)>>n, w, false)
+	}
+	if isIntTerm(x) {
+		if !yok {
+			if yt2, isT := y.(*Term); isT {
+				yc = concretize(yt2, yw, 0, 64)
+			}
+		}
+		return shiftInt(fr, op, w, signed, x, yc)
+	}
+	if isIntTerm(y) {
+		y = toBV(y, yw)
 	}
 	a := toBV(x, w)
 	var b *Term
@@ -526,6 +543,10 @@ func equals(fr *frame, instr ssa.Instruction, t types.Type, x, y Val) Val {
 			if xok && yok {
 				return xc == yc
 			}
+			if isIntTerm(x) || isIntTerm(y) {
+				_, signed, _ := intInfo(tt)
+				return fromBoolTerm(mkEq(toIntTerm(x, w, signed), toIntTerm(y, w, signed)))
+			}
 			return fromBoolTerm(mkEq(toBV(x, w), toBV(y, w)))
 		}
 		if isString(tt) {
@@ -624,6 +645,9 @@ func unop(fr *frame, instr *ssa.UnOp, x Val) Val {
 			return -x
 		case *Term:
 			w, signed, _ := intInfo(instr.Type())
+			if x.sort.K == KInt {
+				return fromInt(wrapInt(mkINeg(x), w, signed), w, signed)
+			}
 			return fromBV(mkNeg(x), w, signed)
 		}
 	case token.MUL:
@@ -643,6 +667,9 @@ func unop(fr *frame, instr *ssa.UnOp, x Val) Val {
 		case int64:
 			return canon(^uint64(x), w, signed)
 		case *Term:
+			if x.sort.K == KInt {
+				return fromInt(wrapInt(mkIBin(OISub, mkINeg(x), mkInt64(1)), w, signed), w, signed)
+			}
 			return fromBV(mkBNot(x), w, signed)
 		}
 	}
@@ -661,7 +688,11 @@ func concretize(v Val, w int, lo, hi int64) int64 {
 		}
 		alts := make([]*Term, 0, hi-lo+1)
 		for k := lo; k <= hi; k++ {
-			alts = append(alts, mkEq(v, mkBV(uint64(k), w)))
+			if v.sort.K == KInt {
+				alts = append(alts, mkEq(v, mkInt64(k)))
+			} else {
+				alts = append(alts, mkEq(v, mkBV(uint64(k), w)))
+			}
 		}
 		if len(alts) == 0 {
 			panic(pathEnd{"infeasible", "empty concretisation range"})
@@ -725,7 +756,7 @@ func sliceOp(fr *frame, instr *ssa.Slice) Val {
 		if v == nil {
 			return def
 		}
-		if t, ok := v.(*Term); ok {
+		if t, ok := v.(*Term); ok && t.sort.K == KBV {
 			// widen to 64 bit signed per its static type
 			w, signed, _ := intInfo(op.Type())
 			if w < 64 {
@@ -856,6 +887,9 @@ func indexAddr(fr *frame, instr *ssa.IndexAddr) Val {
 
 // widen64 extends an index value to a 64-bit term per its static type.
 func widen64(idx Val, it types.Type) *Term {
+	if isIntTerm(idx) {
+		return mkInt2Bv(idx.(*Term), 64)
+	}
 	w, signed, _ := intInfo(it)
 	t := toBV(idx, w)
 	if w < 64 {
@@ -877,6 +911,14 @@ func boundsIndex(fr *frame, instr ssa.Instruction, idx Val, it types.Type, n int
 			fr.fault(instr, "index", fmt.Sprintf("index out of range [%d] with length %d", c, n))
 		}
 		return c
+	}
+	if isIntTerm(idx) {
+		it := idx.(*Term)
+		ok := mkAnd(mkICmp(OILe, mkInt64(0), it), mkICmp(OILt, it, mkInt64(int64(n))))
+		if !in.ex.branch(in.path, ok) {
+			fr.fault(instr, "index", fmt.Sprintf("index out of range [sym] with length %d", n))
+		}
+		return concretize(it, 64, 0, int64(n-1))
 	}
 	t := widen64(idx, it)
 	ok := mkCmp(OUlt, t, mkBV(uint64(n), 64))
@@ -1217,6 +1259,9 @@ func encodeRune(r Val) []Val {
 		return strBytes(s)
 	}
 	t := r.(*Term)
+	if t.sort.K == KInt {
+		t = mkInt2Bv(t, 64)
+	}
 	w := t.sort.W
 	if w < 32 {
 		t = mkZext(t, 32)
@@ -1331,6 +1376,9 @@ func conv(fr *frame, instr ssa.Instruction, tdst, tsrc types.Type, x Val) Val {
 				case int64:
 					return canon(uint64(v), dw, dsigned)
 				case *Term:
+					if v.sort.K == KInt {
+						return fromInt(wrapInt(v, dw, dsigned), dw, dsigned)
+					}
 					var r *Term
 					if dw <= sw {
 						r = mkExtract(dw-1, 0, v)
@@ -1594,6 +1642,14 @@ func minmax(fr *frame, isMin bool, t types.Type, a, b Val) Val {
 				return ac
 			}
 			return bc
+		}
+		if isIntTerm(a) || isIntTerm(b) {
+			x, y := toIntTerm(a, w, signed), toIntTerm(b, w, signed)
+			c := mkICmp(OILt, x, y)
+			if isMin {
+				return fromInt(mkIte(c, x, y), w, signed)
+			}
+			return fromInt(mkIte(c, y, x), w, signed)
 		}
 		x, y := toBV(a, w), toBV(b, w)
 		op := OSlt
